@@ -105,7 +105,7 @@ def build(tier, seed):
 def program(items):
     lines = [PRELUDE]
     spans = []
-    ln = PRELUDE.count("\n") + 1
+    ln = PRELUDE.count("\n") + 2
     for (i, kind, params, decl, body) in items:
         if decl:
             lines.append(decl)
